@@ -738,7 +738,7 @@ func (dht *FullRT) SearchValue(ctx context.Context, key string, opts ...routing.
 	}
 
 	stopCh := make(chan struct{})
-	valCh, lookupRes := dht.getValues(ctx, key)
+	valCh, lookupRes := dht.getValues(ctx, key, stopCh)
 
 	out := make(chan []byte)
 	go func() {
@@ -866,7 +866,7 @@ type lookupWithFollowupResult struct {
 	peers []peer.ID // the top K not unreachable peers at the end of the query
 }
 
-func (dht *FullRT) getValues(ctx context.Context, key string) (<-chan RecvdVal, <-chan *lookupWithFollowupResult) {
+func (dht *FullRT) getValues(ctx context.Context, key string, stopQuery chan struct{}) (<-chan RecvdVal, <-chan *lookupWithFollowupResult) {
 	valCh := make(chan RecvdVal, 1)
 	lookupResCh := make(chan *lookupWithFollowupResult, 1)
 
@@ -897,6 +897,9 @@ func (dht *FullRT) getValues(ctx context.Context, key string) (<-chan RecvdVal, 
 		return valCh, lookupResCh
 	}
 
+	// queryFn shadows ctx with the context of a single request, which execOnMany
+	// cancels once enough peers have answered.
+	searchCtx := ctx
 	go func() {
 		defer close(valCh)
 		defer close(lookupResCh)
@@ -934,14 +937,18 @@ func (dht *FullRT) getValues(ctx context.Context, key string) (<-chan RecvdVal, 
 				return nil
 			}
 
-			// the record is present and valid, send it out for processing
+			// the record is present and valid, send it out for processing. It was
+			// received in time: don't discard it because the requests to the other
+			// peers are being cancelled while the consumer of the search is still
+			// busy with an earlier value. Only the end of the search makes it moot.
 			select {
 			case valCh <- RecvdVal{
 				Val:  val,
 				From: p,
 			}:
-			case <-ctx.Done():
-				return ctx.Err()
+			case <-stopQuery:
+			case <-searchCtx.Done():
+				return searchCtx.Err()
 			}
 
 			return nil
